@@ -151,7 +151,7 @@ def write_pickle_ktable(path, tab, name='H2O'):
     return path
 
 
-def write_hdf5_ktable(path, tab, unit='bar', name='H2O'):
+def write_hdf5_ktable(path, tab, unit='bar', name='H2O', kdtype=None):
     import h5py
     w = _f(tab['weights'])
     with h5py.File(path, 'w') as fd:
@@ -161,7 +161,8 @@ def write_hdf5_ktable(path, tab, unit='bar', name='H2O'):
         fd.create_dataset('t', data=_f(tab['T']))
         p = fd.create_dataset('p', data=_f(tab['P']) / PA_PER_UNIT[unit])
         p.attrs['units'] = unit
-        fd.create_dataset('kcoeff', data=_f(tab['x']) * CM2_PER_M2)
+        kc = _f(tab['x']) * CM2_PER_M2
+        fd.create_dataset('kcoeff', data=kc if kdtype is None else kc.astype(kdtype))      # e.g. single precision
         fd.create_dataset('weights', data=w)
         fd.create_dataset('samples', data=np.cumsum(w) - 0.5 * w)
         fd.create_dataset('mol_name', data=name)
